@@ -1,3 +1,4 @@
 SPECIFICATION Spec
 INVARIANT IndefiniteSane
+INVARIANT FitsIrrelevant
 CHECK_DEADLOCK FALSE
